@@ -183,6 +183,30 @@ def check_C01(ck):
                 ck.expect(ok, "batch", line, impl, "same points, z=1", "batch normalisation preserves points")
             else:
                 ck.expect(n == 0 and impl == "-", "batch", line, impl, "no panic", "batch normalisation")
+        # directed batch shapes
+        Pn = [p_ for (_, p_) in pts if p_ is not None]
+        shapes = [["n", "j", "j"], ["j", "j", "n"], ["i", "j"], ["j", "i"], ["n", "n", "n"], ["j"], ["n"], ["i"], ["j", "j"], ["j", "n", "i", "j", "n", "j"], ["dup", "dup"], ["neg", "j"]]
+        for sh in shapes:
+            lst, want = [], []
+            base = Pn[rng.randrange(len(Pn))]
+            lamd = g.lam(rng)
+            for kind in sh:
+                if kind == "n": P = Pn[rng.randrange(len(Pn))]; lst.append(g.J(P)); want.append(P)
+                elif kind == "j": P = Pn[rng.randrange(len(Pn))]; lst.append(g.J(P, g.lam(rng))); want.append(P)
+                elif kind == "i": lst.append(g.J(None)); want.append(None)
+                elif kind == "dup": lst.append(g.J(base, lamd)); want.append(base)
+                elif kind == "neg": lst.append(g.J(C.neg(base), lamd)); want.append(C.neg(base))
+            line = "%s batch %s" % (tag, ";".join(lst))
+            (impl, _), = ck.run([("batch-shape:" + "".join(k[0] for k in sh), line)])
+            outs = impl.split(";") if impl not in ("PANIC", "-", "BAD-CASE") else []
+            ok = len(outs) == len(want)
+            for o, P in zip(outs, want):
+                x, y, z = o.split("/")
+                if P is None:
+                    ok = ok and O.parse_f(K, z) == K.zero
+                else:
+                    ok = ok and O.parse_f(K, z) == K.one and (O.parse_f(K, x), O.parse_f(K, y)) == P
+            ck.expect(ok, "batch", line, impl[:100], "same points, z=1", "batch normalisation preserves points (directed shapes)")
         # random programs over 6 registers, biased to reuse registers
         nprog, plen = (6, 40) if not thorough else (30, 400)
         for _ in range(nprog):
@@ -496,6 +520,22 @@ def _enc_classes(g, rng, thorough):
                 if idx == 0:
                     body[0] = (body[0] & 0x1f) | (0x80 if comp else 0)
                 out.append(("coord%d=%s" % (idx, cv), bytes(body), comp))
+        # precedence: several things wrong at once (flag errors must win over range errors, range over curve ...)
+        for fl in range(8):
+            for (bc, xv) in (("x>=q", Q + 5), ("x=2^381-1", 2 ** 381 - 1)):
+                body = bytearray(O.encode(K, g.gen, comp))
+                body[0:48] = xv.to_bytes(48, "big")
+                body[0] = (body[0] & 0x1f) | (fl << 5)
+                out.append(("precedence/flags%d+%s" % (fl, bc), bytes(body), comp))
+            if not comp:
+                body = bytearray(O.encode(K, g.gen, comp))
+                body[sz:sz + 48] = (Q + 1).to_bytes(48, "big")          # y out of range
+                body[0:48] = (Q + 1).to_bytes(48, "big")                # and x out of range: x reported
+                body[0] = (body[0] & 0x1f) | (fl << 5)
+                out.append(("precedence/flags%d+x,y>=q" % fl, bytes(body), comp))
+                body = bytearray(O.encode(K, g.full(rng), comp))          # on curve, not in subgroup
+                body[sz + 47 if K is F1 else 2 * sz - 1] ^= 1              # and off-curve: NotOnCurve wins
+                out.append(("precedence/off-curve-and-not-subgroup", bytes(body), comp))
         # identity with garbage
         for pos in (0, 1, ln - 1):
             b2 = bytearray(O.encode(K, None, comp)); b2[pos] |= 1 if pos else 0x01
@@ -594,9 +634,12 @@ def check_C19(ck):
         cases.append(("fq12/chunked-reader", "deser_fq12_ch %s %x" % ((bs + b"\x01\x02").hex(), rng.choice([1, 5, 47, 49, 100])))); exp.append("%s 576" % sx)
         for ln in ([0, 47, 48, 100, 575] if not thorough else list(range(0, 576, 7)) + [575]):
             cases.append(("fq12/truncated", "deser_fq12 %s" % (bs[:ln].hex() or "-"))); exp.append("ERR:eof")
-        k = rng.randrange(12)
-        bad = bytearray(bs); bad[48 * k:48 * k + 48] = (Q + rng.randrange(3)).to_bytes(48, "big")
-        cases.append(("fq12/non-reduced", "deser_fq12 %s" % bytes(bad).hex())); exp.append("ERR:notInField")
+        for k in range(12):
+            bad = bytearray(bs); bad[48 * k:48 * k + 48] = (Q + rng.randrange(3)).to_bytes(48, "big")
+            cases.append(("fq12/non-reduced-coeff%d" % k, "deser_fq12 %s" % bytes(bad).hex())); exp.append("ERR:notInField")
+            ok_ = bytearray(bs); ok_[48 * k:48 * k + 48] = (Q - 1).to_bytes(48, "big")
+            xs = list(x); xs[k] = Q - 1
+            cases.append(("fq12/max-coeff%d" % k, "deser_fq12 %s" % bytes(ok_).hex())); exp.append("%s 576" % ",".join("%x" % c for c in xs))
     for tag in ("g1", "g2"):
         g = grp(tag)
         K, C = g.K, g.C
@@ -820,7 +863,9 @@ def check_C09(ck):
         cases.append(("fq2/norm", "fq2 norm %s" % _f2s(a))); exp.append("%x" % ((a[0] * a[0] + a[1] * a[1]) % Q))
         for k in (list(range(0, 8)) + [2 ** 32, 2 ** 64 - 1]) if a in sp2[-3:] or thorough else (0, 1, 2, 3):
             cases.append(("fq2/frob", "fq2 frob %s %x" % (_f2s(a), k))); exp.append(_f2s(F2.pow(a, Q ** (k % 2))))
-    sp6 = [O.F6_ZERO, O.F6_ONE, ((0, 0), (1, 0), (0, 0)), ((0, 0), (0, 0), (1, 0)), ((rng.randrange(Q), 0), (0, 0), (0, 0)), (r2(), (0, 0), (0, 0)), ((0, 0), r2(), (0, 0))] + [r6() for _ in range(3)]
+    e = rng.randrange(1, Q)
+    sp2 += [(e, e), (e, (-e) % Q), (e, 0), (0, e)]
+    sp6 = [O.F6_ZERO, O.F6_ONE, ((e, e), (e, e), (e, e)), ((e, 0), (e, 0), (e, 0)), ((0, 0), (0, 0), r2()), (r2(), r2(), (0, 0)), ((0, 0), (1, 0), (0, 0)), ((0, 0), (0, 0), (1, 0)), ((rng.randrange(Q), 0), (0, 0), (0, 0)), (r2(), (0, 0), (0, 0)), ((0, 0), r2(), (0, 0))] + [r6() for _ in range(3)]
     S6 = O.show_f6
     for a in sp6:
         for b in sp6[:: (1 if thorough else 2)]:
@@ -838,7 +883,8 @@ def check_C09(ck):
         for k in ((0, 1, 2, 5, 6, 7) if a in sp6[-2:] else (1,)):
             cases.append(("fq6/frob", "fq6 frob %s %x" % (S6(a), k))); exp.append(S6(O.f6_pow(a, Q ** (k % 6))))
     w = (O.F6_ZERO, O.F6_ONE)
-    sp12 = [O.F12_ZERO, O.F12_ONE, w, (sp6[2], O.F6_ZERO), (r6(), O.F6_ZERO), (O.F6_ZERO, r6())] + [r12() for _ in range(3)]
+    ee = r6()
+    sp12 = [O.F12_ZERO, O.F12_ONE, w, (ee, ee), (ee, O.f6_neg(ee)), ((r2(), (0, 0), (0, 0)), ((0, 0), r2(), (0, 0))), (sp6[2], O.F6_ZERO), (r6(), O.F6_ZERO), (O.F6_ZERO, r6())] + [r12() for _ in range(3)]
     S12 = O.show_f12
     def conj(a): return (a[0], O.f6_neg(a[1]))
     for a in sp12:
